@@ -22,41 +22,45 @@ CONSTANTS NRot,     \* seeded random rotations 1..NRot
           NTrans,   \* integer translations (ids), up to +-500 A
           NPerm,    \* atom-order permutations (seeds)
           NShift,   \* residue-number shifts (ids)
+          NIcode,   \* seeded patterns of insertion codes (k+1 becomes k^A for some residues k)
           MaxSteps
 
 VARIABLES motion,   \* sequence of <<kind, id>> motions applied so far
           atomOrder,\* 0 = as in the file, k = k-th seeded shuffle
           chains,   \* 0 = original names, 1 = order-preserving renaming
           shift,    \* id of the residue-number shift (0 = none)
+          icodes,   \* 0 = numbering as deposited, k = k-th order-preserving renumbering WITH insertion codes
           fmt,      \* "obj" | "pdb" | "cif"
           lastop,   \* the step just taken, for replay
           steps
-vars == <<motion, atomOrder, chains, shift, fmt, lastop, steps>>
+vars == <<motion, atomOrder, chains, shift, icodes, fmt, lastop, steps>>
 
 Formats == {"obj", "pdb", "cif"}
 Exact(mo) == \A k \in 1..Len(mo) : mo[k][1] # "Rotate"
 
-Init == /\ motion = <<>> /\ atomOrder = 0 /\ chains = 0 /\ shift = 0
+Init == /\ motion = <<>> /\ atomOrder = 0 /\ chains = 0 /\ shift = 0 /\ icodes = 0
         /\ fmt \in {"obj", "cif"} /\ lastop = <<"Deliver", 0>> /\ steps = 0
 
 Step(op) == lastop' = op /\ steps' = steps + 1 /\ steps < MaxSteps
 
 Rotate(k)    == /\ fmt = "obj"                       \* a random rotation is not representable in 3 decimals
                 /\ motion' = Append(motion, <<"Rotate", k>>) /\ Step(<<"Rotate", k>>)
-                /\ UNCHANGED <<atomOrder, chains, shift, fmt>>
+                /\ UNCHANGED <<atomOrder, chains, shift, icodes, fmt>>
 AxisPerm(k)  == /\ motion' = Append(motion, <<"AxisPerm", k>>) /\ Step(<<"AxisPerm", k>>)
-                /\ UNCHANGED <<atomOrder, chains, shift, fmt>>
+                /\ UNCHANGED <<atomOrder, chains, shift, icodes, fmt>>
 Translate(k) == /\ motion' = Append(motion, <<"Translate", k>>) /\ Step(<<"Translate", k>>)
-                /\ UNCHANGED <<atomOrder, chains, shift, fmt>>
+                /\ UNCHANGED <<atomOrder, chains, shift, icodes, fmt>>
 PermuteAtoms(k) == /\ atomOrder' = k /\ atomOrder # k /\ Step(<<"PermuteAtoms", k>>)
-                   /\ UNCHANGED <<motion, chains, shift, fmt>>
+                   /\ UNCHANGED <<motion, chains, shift, icodes, fmt>>
 RenameChains == /\ chains' = 1 - chains /\ Step(<<"RenameChains", 1 - chains>>)
-                /\ UNCHANGED <<motion, atomOrder, shift, fmt>>
+                /\ UNCHANGED <<motion, atomOrder, shift, icodes, fmt>>
 ShiftNumbers(k) == /\ shift' = k /\ shift # k /\ Step(<<"ShiftNumbers", k>>)
-                   /\ UNCHANGED <<motion, atomOrder, chains, fmt>>
+                   /\ UNCHANGED <<motion, atomOrder, chains, icodes, fmt>>
+InsertCodes(k)  == /\ icodes' = k /\ icodes # k /\ Step(<<"InsertCodes", k>>)
+                   /\ UNCHANGED <<motion, atomOrder, chains, shift, fmt>>
 SwitchFormat(f) == /\ f # fmt /\ (f = "obj" \/ Exact(motion))
                    /\ fmt' = f /\ Step(<<"SwitchFormat", IF f = "obj" THEN 0 ELSE IF f = "pdb" THEN 1 ELSE 2>>)
-                   /\ UNCHANGED <<motion, atomOrder, chains, shift>>
+                   /\ UNCHANGED <<motion, atomOrder, chains, shift, icodes>>
 
 Next == \/ \E k \in 1..NRot : Rotate(k)
         \/ \E k \in 1..NAxis : AxisPerm(k)
@@ -64,18 +68,19 @@ Next == \/ \E k \in 1..NRot : Rotate(k)
         \/ \E k \in 1..NPerm : PermuteAtoms(k)
         \/ RenameChains
         \/ \E k \in 0..NShift : ShiftNumbers(k)
+        \/ \E k \in 0..NIcode : InsertCodes(k)
         \/ \E f \in Formats : SwitchFormat(f)
 Spec == Init /\ [][Next]_vars
 
 \* every reachable presentation is deliverable: a text format never has to carry a random rotation
 Deliverable == fmt \in {"pdb", "cif"} => Exact(motion)
-TypeOK == /\ fmt \in Formats /\ atomOrder \in 0..NPerm /\ chains \in {0, 1} /\ shift \in 0..NShift /\ steps <= MaxSteps
+TypeOK == /\ fmt \in Formats /\ atomOrder \in 0..NPerm /\ chains \in {0, 1} /\ shift \in 0..NShift /\ icodes \in 0..NIcode /\ steps <= MaxSteps
 
 \* which sentence of the property a step exercises
 ClauseOf(opname) ==
   CASE opname \in {"Rotate", "AxisPerm", "Translate"} -> "InvariantUnderMotion"
     [] opname = "PermuteAtoms" -> "InvariantUnderAtomOrder"
-    [] opname \in {"RenameChains", "ShiftNumbers"} -> "InvariantUnderRelabel"
+    [] opname \in {"RenameChains", "ShiftNumbers", "InsertCodes"} -> "InvariantUnderRelabel"
     [] opname = "SwitchFormat" -> "InvariantUnderFormat"
     [] OTHER -> "Delivery"
 =============================================================================
